@@ -138,7 +138,7 @@ func automaton(tr []lab.Event, liveTrace bool) (viol []string, stats map[string]
 	return
 }
 
-var symbols = []string{"connect-again", "app-in-low-origlater", "app-in-high", "hb-in-high", "connect", "logon", "logon-high", "logon-low", "logon-reset", "logon-badcomp", "app-in", "hb-in", "testreq-in", "logout-in", "garbage-in", "send", "send", "t-heartbeat", "t-peer", "t-logon", "t-logout", "stop", "close"}
+var symbols = []string{"resendreq-in", "resendreq-in", "connect-again", "app-in-low-origlater", "app-in-high", "hb-in-high", "connect", "logon", "logon-high", "logon-low", "logon-reset", "logon-badcomp", "app-in", "hb-in", "testreq-in", "logout-in", "garbage-in", "send", "send", "t-heartbeat", "t-peer", "t-logon", "t-logout", "stop", "close"}
 
 func apply(l *lab.Lab, p *lab.Peer, sym string, k int) {
 	sn := l.Snap()
@@ -183,6 +183,9 @@ func apply(l *lab.Lab, p *lab.Peer, sym string, k int) {
 		l.In("Heartbeat", p.Msg("0", sn.NextTarget, nil, nil))
 	case "testreq-in":
 		l.In("TestRequest", p.Msg("1", sn.NextTarget, nil, fixwire.Fields{lab.F(112, "T")}))
+	case "resendreq-in":
+		// (replays stay possible until the connection ends; nothing else may ride along with them)
+		l.In("ResendRequest", p.Msg("2", sn.NextTarget, nil, fixwire.Fields{lab.F(7, "1"), lab.F(16, "0")}))
 	case "logout-in":
 		l.In("Logout", p.Msg("5", sn.NextTarget, nil, nil))
 	case "garbage-in":
